@@ -4,6 +4,9 @@ import numpy as np
 
 DTYPES = ["float16", "float32", "float64", "int8", "int16", "int32", "int64", "uint8", "uint16",
           "uint32", "uint64", "bool", "complex64", "complex128"]
+# less common but legal element types: extended precision, non-native byte order
+EXOTIC_DTYPES = [np.dtype("longdouble").name, np.dtype("clongdouble").name, ">f4", ">f8", ">i2", ">u4", ">c8"]
+
 NAME_POOL = ["a", "b", "lif", "input", "output", "type", "nodes", "edges", "metadata", "x y", "ünï", "日本",
              "é", "a.b", "n\n1", "Ω", "version", "node", "0", "..", "tab\t", "q" * 300, "UP", "w_in"]
 BAD_NAMES = ["a/b", "/a", "a/", "a\x00b"]
@@ -15,7 +18,7 @@ SPECIAL_F = [float("nan"), -0.0, 0.0, float("inf"), -float("inf"), 5e-324, 1.0, 
 
 
 def rand_array(rng, shape, dt=None):
-    dt = dt or rng.choice(DTYPES)
+    dt = dt or (rng.choice(EXOTIC_DTYPES) if rng.random() < 0.06 else rng.choice(DTYPES))
     n = int(np.prod(shape)) if len(shape) else 1
     d = np.dtype(dt)
     if d.kind == "f":
@@ -29,7 +32,14 @@ def rand_array(rng, shape, dt=None):
         info = np.iinfo(d)
         a = np.array([rng.choice([info.min, info.max, 0, 1, rng.randint(max(info.min, -99), min(info.max, 99))])
                       for _ in range(n)], dtype=d)
+    if d.kind in "fc" and d.itemsize // (2 if d.kind == "c" else 1) > 8:
+        with np.errstate(all="ignore"):
+            a = a / d.type(3)       # values a double cannot hold
     a = a.reshape(shape)
+    if rng.random() < 0.04 and a.size:
+        a = a.copy()
+        a.setflags(write=False)     # a frozen parameter (still the graph's own array: a copy must not alias it)
+        return a
     lay = rng.random()
     if a.ndim >= 2 and lay < 0.15:
         a = np.asfortranarray(a)
@@ -39,6 +49,10 @@ def rand_array(rng, shape, dt=None):
         a = big[::2]          # strided view with the same content
     elif a.ndim >= 2 and lay < 0.4:
         a = np.ascontiguousarray(a.T).T   # transposed view
+    elif a.ndim >= 3 and lay < 0.55:
+        a = np.moveaxis(np.ascontiguousarray(np.moveaxis(a, 0, -1)), -1, 0)   # cyclically permuted view (not self-inverse)
+    elif a.ndim >= 1 and a.size > 1 and lay < 0.6:
+        a = np.broadcast_to(a.reshape(-1)[:1].reshape([1] * a.ndim), a.shape)  # uniform parameter as a zero-stride view
     return a
 
 
@@ -52,12 +66,15 @@ def rand_meta(rng, depth):
     def tree(d):
         out = {}
         for _ in range(rng.randint(0, 3)):
-            k = rng.choice(["k", "note", "ünï", "α β", "n", "arr", "f", "sub", "type", "q" * 40, "x.y", "input_type",
+            k = rng.choice(["k", "note", "ünï", "α β", "n", "arr", "f", "sub", "type", "q" * 40, "x.y", "rate%2Fhz", "50%2F50", "%", "%25", "2024-03-01", "input_type",
                             "output_type", "weight", "shape", "nodes", "edges"])
             r = rng.random()
             if r < 0.2:
                 out[k] = rng.choice(["", "text", "日本語", "a\nb", "same", "hidden layer ", " ", "    ", " lead", "tab\t", "trail \n",
-                                     "nbsp\u00a0", "caf\u0065\u0301", "\u2126 ohm"])
+                                     "nbsp\u00a0", "caf\u0065\u0301", "\u2126 ohm",
+                                 # text that LOOKS like another kind of value (dates, numbers, booleans, escapes)
+                                 "2024-03-01", "20240301", "2024-03-01T12:30:00+00:00", "12:30", "1e5", "nan", "True", "None", "0x10",
+                                 "1_000", "[1, 2]", "{}", "%2F", "a%2Fb", "\\n", "b'x'"])
             elif r < 0.35:
                 out[k] = rng.choice([0, 1, -7, 2 ** 40, 2 ** 63 - 1])
             elif r < 0.5:
